@@ -20,7 +20,7 @@ CONFIG = {
     "C13": dict(gen=["Models"], drivers=["Iast"]),
     "C14": dict(gen=["Char"], drivers=["Char"]),
     "C15": dict(gen=["Char", "Units"], drivers=[]),
-    "C16": dict(gen=["Char"], drivers=["Char"]),
+    "C16": dict(gen=["Char"], drivers=["Char", "Meso"]),
     "C18": dict(gen=["Char"], drivers=["Kernel", "Char"]),
     "C19": dict(gen=["Char", "Models"], drivers=["Char", "Enthalpy"]),
     "C17": dict(gen=["Char"], drivers=["Char"]),
